@@ -14,7 +14,7 @@ WT = "/tmp/wt3"
 RENAME = {"M1": "M3", "M2": "M4", "T1": "T4", "T2": "T5", "T3": "T6"}
 BASE = json.load(open("/root/.vp/BASELINE.json"))
 STABLE = set(BASE["stable_pass"])
-HEAD = subprocess.run(["git", "-C", "/repo", "rev-parse", "HEAD"], capture_output=True, text=True).stdout.strip()
+HEAD = subprocess.run(["git", "-C", "/repo", "rev-parse", "508df97"], capture_output=True, text=True).stdout.strip()  # the commit the round-3 agents worked on
 
 
 def sh(cmd, cwd, timeout=1800):
